@@ -314,9 +314,10 @@ def run_cases(ctx, model, cases, label, oracle=None, mode='expand', compare_mode
         if oracle is not None:
             bad = oracle(abbr, cfg, meta, r)
             if bad:
-                ctx.property_failure('%s:%s|%s' % (label, abbr, canon_cfg(cfg)),
+                # an oracle may name the listed finding class its verdict belongs to (a str with a `key` attribute)
+                ctx.property_failure(getattr(bad, 'key', None) or '%s:%s|%s' % (label, abbr, canon_cfg(cfg)),
                                      '%s expand(%r, %s): %s' % (label, abbr, canon_cfg(cfg), bad),
-                                     {'component': label, 'abbr': abbr, 'config': cfg, 'impl': repr(r)[:500], 'why': bad})
+                                     {'component': label, 'abbr': abbr, 'config': cfg, 'impl': repr(r)[:500], 'why': str(bad)})
         if compare_model and model is not None:
             try:
                 from lorem_oracle import model_draws
